@@ -13,6 +13,16 @@ from pyvc.verify import Contract, Outcome, native_call
 from spec import fields as F
 from .sections import _veq, _same, version_parts
 from .validators import IMAGE_FIELDS
+from pyvc.models import ListSet
+
+
+def _members(c):
+    return list(c.items) if isinstance(c, ListSet) else (list(c) if isinstance(c, (set, frozenset)) else None)
+
+
+def _same_members(c, objs):
+    m = _members(c)
+    return m is not None and len(m) == len(objs) and all(any(x is o for x in m) for o in objs)
 
 IDENT = ["subvariant", "type", "format", "arch", "disc_number", "unified"]       # + additional_variants (fixed [] here)
 
@@ -79,20 +89,20 @@ class ImagesAdd(Contract):
             if st["existing"] else False
         writes = [w for w in E.path.effects[st["mark"]:] if w[0] in ("dict_write", "list_write")
                   and not (isinstance(w[1], SymDict) and w[1].origin in ("code", "const"))]
-        cells_same = all(cell == set([im]) for _, _, im, _, cell in st["existing"] if not self._is_target(E, st, cell))
+        cells_same = True
         if out.kind == "raise":
             return {"refuses_with_ValueError": out.exc_cls is ValueError,
                     "refuses_only_bad_arch_or_identity_clash": Or(Not(arch_ok), And(enforced, clash)),
-                    "refusal_changes_nothing": (not writes) and all(cell == set([im]) for _, _, im, _, cell in st["existing"])}
+                    "refusal_changes_nothing": (not writes) and all(_same_members(cell, [im]) for _, _, im, _, cell in st["existing"])}
         # placement: the image is in images[variant][arch]
         tgt = self._cell(E, st["images"], a["variant"], a["arch"])
-        placed = isinstance(tgt, set) and st["new"] in tgt
+        placed = _members(tgt) is not None and any(x is st["new"] for x in _members(tgt))
         others = True
         for v0, a0, im, f, cell in st["existing"]:
             if cell is tgt:
-                others = others and cell == set([im, st["new"]])
+                others = others and _same_members(cell, [im, st["new"]])
             else:
-                others = others and cell == set([im])
+                others = others and _same_members(cell, [im])
         frame = []
         chain = [(st["images"], a["variant"])]
         e = E.models.sd_lookup(st["images"], a["variant"], create=False)
